@@ -33,7 +33,7 @@ def J(harness, params=None, **kw):
 
 # ----------------------------------------------------------------------------------------------- SELFTEST
 def selftest_jobs(tier, seed):
-    return []
+    return [J("se_h_selftest_nop", {}, label="pipeline self-test: one symbolic byte through the real windows-1252 decoder", need=[9999, 1, 2])]
 
 
 PROPS["SELFTEST"] = dict(cfgs=["verif_selftest"], level="other", jobs=selftest_jobs, evidence=False, explanation="",
@@ -1173,7 +1173,8 @@ def c18_jobs(tier, seed):
         n1 = min(nmax, 2 if (q and enc in ("UTF-8", "windows-1252", "windows-874", "UTF-16LE", "UTF-16BE", "ISO-2022-JP")) else 3)
         for pre in pres:
             for (lo, hi) in ranges:
-                for (s, r) in ([(k % 3, k % 2)] if q else [(s, r) for s in range(3) for r in (0, 1)]):
+                # slice sinks only: arbitrary symbolic bytes are not a valid prior content of a &mut str (its pre-fills are C05's subject)
+                for (s, r) in ([(k % 2, (k // 2) % 2)] if q else [(s, r) for s in range(2) for r in (0, 1)]):
                     mn = 2 if s == 0 else 4
                     jl.append(J("se_h_c18_dec", {0: E[enc], 1: 0 if lo == 0 else 1, 2: n1, 3: s, 4: r, 5: lo, 6: hi, 7: pre, 8: 0 if k % 3 else 2, 9: mn + k % 2, 11: 1},
                                 label="decode %s n<=%d first=%02X..%02X prefix=%d sink=%s repl=%d cap=%d, twin symbolic pre-fills" % (enc, n1, lo, hi, pre, SINKS[s], r, mn + k % 2),
@@ -1198,7 +1199,7 @@ PROPS["C18"] = dict(
                  "refutable. Decoder and encoder caller loops at small capacities and six mem conversions are covered. For the String / Vec sinks the spare capacity is uninitialised "
                  "memory in the executor's memory model: a branch on it, or a unit exposed by set_len without having been stored, is flagged by the built-in checks in every run of "
                  "C02 / C04 / C05 / C06 / C08 with those sinks."),
-    bounds=lambda tier: ("decoder streams of N<=3 symbolic bytes (quick: 2 for the encodings with many data paths), one symbolic cut, capacity minimum or minimum+1, slice and &mut str sinks; "
+    bounds=lambda tier: ("decoder streams of N<=3 symbolic bytes (quick: 2 for the encodings with many data paths), one symbolic cut, capacity minimum or minimum+1, UTF-16 and UTF-8 slice sinks; "
                          "encoder texts with one symbolic character in a window; mem: 0/15/16 ASCII + 2 symbolic units (thorough: 3, six filler lengths)"),
     outside=["simd-accel build", "histories longer than the bounds"],
     assumptions=ENGINE_ASSUMPTIONS,
